@@ -361,6 +361,7 @@ def _quantified(test: ast.AST, pol: bool):
     from .loader import dotted
 
     t = test
+    pol0 = pol
     while isinstance(t, ast.UnaryOp) and isinstance(t.op, ast.Not):
         t, pol = t.operand, not pol
     if isinstance(t, ast.NamedExpr):
@@ -372,7 +373,7 @@ def _quantified(test: ast.AST, pol: bool):
             its = [(norm(c.target), c.iter) for c in g.generators]
             conds = [nnf(g.elt, neg=not is_any)] + [nnf(i) for c in g.generators for i in c.ifs]
             return its, conds
-    return [], [nnf(test, neg=not pol)]
+    return [], [nnf(test, neg=not pol0)]
 
 
 def rejections(cfg, fn_node: ast.AST, defs: Defs | None = None) -> list[dict]:
@@ -556,3 +557,26 @@ def unreachable_when(cfg, defs: Defs, node: int, env: dict[str, bool]) -> bool:
         if all(bool_eval(t, e) in (truth, None) for t, truth in ctrl):
             return False
     return True
+
+
+def decide(body: list[ast.stmt], env: dict[str, bool]) -> bool | None:
+    """Truth value returned by a predicate written as a chain of `if c: return x` / `return x` statements, under an
+    assignment of its atomic conditions; None when the body has another shape or an atom is not assigned."""
+    for st in body:
+        if isinstance(st, ast.Expr) and isinstance(st.value, ast.Constant):
+            continue
+        if isinstance(st, ast.Return):
+            return bool_eval(st.value, env) if st.value is not None else None
+        if isinstance(st, ast.If):
+            c = bool_eval(st.test, env)
+            if c is None:
+                return None
+            r = decide(st.body if c else st.orelse, env)
+            if r is not None or (c and st.body) or (not c and st.orelse):
+                if r is not None:
+                    return r
+                if (c and any(isinstance(x, ast.Return) for x in st.body)) or (not c and any(isinstance(x, ast.Return) for x in st.orelse)):
+                    return None
+            continue
+        return None
+    return None
